@@ -246,6 +246,11 @@ pub enum Obs {
         trees_equal: bool,
         options_equal: bool,
         dumps_equal: bool,
+        /// the second value is a clone of the first parse result (when the tree type is `Clone`)
+        cloned: bool,
+        /// number of handles on sub-expressions of the FIRST value that the caller held while it was
+        /// compiled (the second value: a second parse result nobody else refers to)
+        handles_held: usize,
         /// rendered programs (or error texts) and tables of the two
         outcome_a: Option<(Result<String, String>, Table)>,
         outcome_b: Option<(Result<String, String>, Table)>,
@@ -581,7 +586,12 @@ fn caller_thread(env: Env, hash_key: u64, jobs: Receiver<Job>, replies: Sender<R
                 let r = catch_unwind(AssertUnwindSafe(|| {
                     let (pa, pb) = (parse(&text_a), parse(&text_b));
                     let (Ok((oa, ta)), Ok((ob, tb))) = (pa, pb) else {
-                        return Obs::Compared { a, b, parsed: false, trees_equal: false, options_equal: false, dumps_equal: false, outcome_a: None, outcome_b: None };
+                        return Obs::Compared { a, b, parsed: false, trees_equal: false, options_equal: false, dumps_equal: false, cloned: false, handles_held: 0, outcome_a: None, outcome_b: None };
+                    };
+                    // "compiling equal results": a clone of a parse result is an equal result too
+                    let (tb, cloned) = match (a == b && text_a.len() % 3 == 0).then(|| (&CloneProbe(&ta)).try_clone()).flatten() {
+                        Some(c) => (c, true),
+                        None => (tb, false),
                     };
                     let trees_equal = ta == tb;
                     let options_equal = format!("{oa:?}") == format!("{ob:?}");
@@ -590,8 +600,15 @@ fn caller_thread(env: Env, hash_key: u64, jobs: Receiver<Job>, replies: Sender<R
                         Ok(c) => (Ok(c.scheme(FIXED_PATH)), c.table()),
                         Err(e) => (Err(e), None),
                     };
+                    // an embedding program may hold on to parts of a parse result while it compiles the whole
+                    let mut handles = vec![];
+                    if a == b && text_a.len() % 3 == 1 {
+                        crate::astwalk::inner_handles(&ta, &mut handles);
+                    }
+                    let handles_held = handles.len();
                     let (outcome_a, outcome_b) = if trees_equal && options_equal { (Some(outcome(&ta, &oa)), Some(outcome(&tb, &ob))) } else { (None, None) };
-                    Obs::Compared { a, b, parsed: true, trees_equal, options_equal, dumps_equal, outcome_a, outcome_b }
+                    drop(handles);
+                    Obs::Compared { a, b, parsed: true, trees_equal, options_equal, dumps_equal, cloned, handles_held, outcome_a, outcome_b }
                 }));
                 let _ = end_call(&env, entry);
                 reply.obs.push(match r {
@@ -619,6 +636,26 @@ fn caller_thread(env: Env, hash_key: u64, jobs: Receiver<Job>, replies: Sender<R
         if replies.send(reply).is_err() {
             break;
         }
+    }
+}
+
+/// `try_clone` gives `Some(clone)` when `T: Clone` and `None` otherwise (method resolution prefers the
+/// impl on the value over the one on the reference), so that the harness builds either way.
+struct CloneProbe<'a, T>(&'a T);
+trait ViaClone<T> {
+    fn try_clone(&self) -> Option<T>;
+}
+impl<T: Clone> ViaClone<T> for CloneProbe<'_, T> {
+    fn try_clone(&self) -> Option<T> {
+        Some(self.0.clone())
+    }
+}
+trait NoClone<T> {
+    fn try_clone(&self) -> Option<T>;
+}
+impl<T> NoClone<T> for &CloneProbe<'_, T> {
+    fn try_clone(&self) -> Option<T> {
+        None
     }
 }
 
